@@ -1,4 +1,4 @@
-_c08_floors = {"distinct": 50000, "exhaustive_cases": 1016, "exhaustive_cases_completed": 1016, "exhaustive_sequences": 500000, "checks:status": 1000000, "checks:reassembled-content": 100000, "checks:untouched": 10000,
+_c08_floors = {"distinct": 50000, "exhaustive_cases": 1044, "exhaustive_cases_completed": 1044, "exhaustive_sequences": 500000, "checks:status": 1000000, "checks:reassembled-content": 100000, "checks:untouched": 10000,
                      "ev:duplicate": 10000, "ev:duplicate-after-completion": 10000, "ev:new-fragment-after-completion/completes": 10000, "ev:new-fragment-after-completion": 10000,
                      "ev:last-fragment-arrives-first": 10000, "ev:completed-by-first-fragment": 5000, "ev:completed-by-middle-fragment": 5000, "ev:completed-by-last-fragment": 5000,
                      "ev:completion-while-others-pending": 5000, "ev:fragment-while-others-pending": 50000, "ev:unfragmented-with-key-of-pending-datagram": 500, "ev:non-ip": 1000,
@@ -19,12 +19,12 @@ PROPS["C08"] = dict(
                "and every interleaving (with one duplicate) of two 2..3-fragment datagrams in 7 id/address relations.",
     level_note="Trusted: the ~25-line reference reassembler and the encoder in harness/c08.cpp. Upper layers are well-formed (libtins re-serializes them identically); fragments never carry DF; "
                "no overlapping fragments; two datagrams never use the same (id, src, dst) at the same time. Key = (id, ordered (src,dst)) as in RFC 791 (without the protocol, as the statement says).",
-    phases=[dict(name="exhaustive", harness="c08.cpp", flavor="asan", mode="exhaustive", cases=dict(quick=1016, thorough=2040), args=dict(reversed=1)),
+    phases=[dict(name="exhaustive", harness="c08.cpp", flavor="asan", mode="exhaustive", cases=dict(quick=1044, thorough=2068), args=dict(reversed=1)),
             dict(name="random", harness="c08.cpp", flavor="asan", mode="random", cases=dict(quick=300000, thorough=4000000), args=dict(reversed=1))],
     rule="case = (set of datagrams (id, src, dst, protocol, link layer, options, payload, partition at multiples of 8), arrival order with duplicates, interleaving, unfragmented/non-IP packets); "
          "distinct = distinct (datagram shapes, ordered event list); non-trivial = every history contains >=1 fragmented datagram and is checked after each packet; "
          "exhaustive part: 16..40-byte payloads, all partitions x all orders x <=2 duplicates, and all interleavings of two small datagrams",
-    floors=dict(quick=_c08_floors, thorough=dict(_c08_floors, exhaustive_cases=2040, exhaustive_cases_completed=2040, exhaustive_sequences=4000000, distinct=1000000)),
+    floors=dict(quick=_c08_floors, thorough=dict(_c08_floors, exhaustive_cases=2068, exhaustive_cases_completed=2068, exhaustive_sequences=4000000, distinct=1000000)),
     assumptions=["fragments of one datagram do not overlap and never carry DF; duplicates are exact copies",
                  "the reference forgets a datagram when it completes: later duplicates start a new accumulation, and a second complete set is reassembled again",
                  "a (id, src, dst) triple is used by one datagram at a time (it may be re-used after completion once nothing stale is pending)",
